@@ -344,7 +344,19 @@ func Mutate(r *Rand, segs [][]byte) [][]byte {
 
 // Cyclic / deep templates: k selects the shape, n a parameter.
 func GenCyclic(r *Rand) [][]byte {
-	switch r.Intn(11) {
+	switch r.Intn(13) {
+	case 11, 12: // far / double-far landing pad in the partial last word of a segment whose
+		// length is not a multiple of 8 (caller-supplied arenas may have such segments)
+		k := r.Intn(3)
+		cut := 1 + r.Intn(7)
+		seg1 := Words(make([]uint64, k+2)...)
+		copy(seg1[8*k:], Words(StructPtr(0, 0, 0), StructPtr(-1, 0, 0)))
+		seg1 = seg1[:8*k+cut+8*r.Intn(2)]
+		root := FarPtr(1, uint32(k), r.Intn(3) == 0)
+		if r.Bool() {
+			return [][]byte{Words(StructPtr(0, 0, 1), root), seg1}
+		}
+		return [][]byte{Words(root), seg1}
 	case 9, 10: // composite list whose tag claims more/less than the list pointer's word count,
 		// placed at the very end of its segment (an over-claim reaches past the segment)
 		ew := 1 + r.Intn(2) // element words (data)
